@@ -251,10 +251,14 @@ def kf_state_bookkeeping(case, im, item):
 
 
 def kf_c04_dot(case, im, item):
-    return item.get("error") == "ValueError" and "setting an array element with a sequence" in item.get("msg", "")
+    """a vectorized run inside a structural region of one of C04's known findings (decided on the case's model, not on the symptom alone)"""
+    if not (item.get("error") == "ValueError" and "setting an array element with a sequence" in item.get("msg", "")):
+        return False
+    from . import c04
+    return any(pred({"mdl": case["mdl"]}, "vec", {"error": item.get("error"), "msg": item.get("msg", "")}, None) for pred, _ in c04.KNOWN.values())
 
 
-KNOWN = {"C14-inherits-C04-regions": (kf_c04_dot, "a vectorized run inside C04's dot-edge known-finding region raises; the template itself is unchanged")}
+KNOWN = {"C14-inherits-C04-regions": (kf_c04_dot, "a vectorized run inside the structural region of a C04 known finding raises; the template itself is unchanged")}
 
 
 def check(tier, seed, replay=None):
